@@ -91,4 +91,90 @@ fn replay_preliminary_verify() {
         // another message
         assert!(proof.verify(&[9u8; 16], avk.to_concatenation_aggregate_verification_key(), &w.params).is_err(), "aggregate accepted for another message");
     }
+    unregistered_party_scenario();
+}
+
+/// clause "every (key, stake) pair that contributes indices is committed by the aggregate key": an aggregate whose quorum needs
+/// the indices of a TRAILING slot signed by a never-registered key (claiming the total stake), with the honest batch path that
+/// only opens the honest signer's leaf, must be rejected
+fn unregistered_party_scenario() {
+    use crate::proof_system::SingleSignatureForConcatenation;
+    use crate::signature_scheme::BlsSigningKey;
+    let params = Parameters { m: 10, k: 10, phi_f: 1.0 };
+    let mut rng = ChaCha20Rng::from_seed([2u8; 32]);
+    let mut reg = KeyRegistration::initialize();
+    let inits: Vec<Initializer> = (0..4).map(|_| { let i = Initializer::new(params, 1, &mut rng); reg.register_by_entry(&i.clone().try_into().unwrap()).unwrap(); i }).collect();
+    let closed = reg.close_registration(&params).unwrap();
+    let signers: Vec<Signer<D>> = inits.into_iter().map(|i| i.try_create_signer::<D>(&closed).unwrap()).collect();
+    let msg = [9u8; 16];
+    let clerk = Clerk::new_clerk_from_signer(&signers[0]);
+    let avk = clerk.compute_aggregate_verification_key();
+    let honest = signers[0].create_single_signature(&msg).unwrap();
+    let aggr = clerk.aggregate_signatures_with_type(&[honest], &msg, AggregateSignatureType::Concatenation, AncillaryProofInput::new(None, AncillaryGenesisData::new())).unwrap().0;
+    aggr.verify(&msg, &avk, &params, None, None).expect("honest aggregate rejected");
+    let AggregateSignature::Concatenation(boxed) = &aggr else { panic!("not a concatenation proof") };
+    let mut proof = (**boxed).clone();
+    proof.signatures[0].sig.set_concatenation_signature_indices(&[0, 1, 2, 3, 4]);
+    let rogue_sk = BlsSigningKey::generate(&mut rng);
+    let rogue_vk = VerificationKeyProofOfPossessionForConcatenation::from(&rogue_sk).vk;
+    let concat_avk = avk.to_concatenation_aggregate_verification_key();
+    let msgp = concat_avk.get_merkle_tree_batch_commitment().concatenate_with_message(&msg);
+    proof.signatures.push(SingleSignatureWithRegisteredParty {
+        sig: SingleSignature {
+            concatenation_signature: SingleSignatureForConcatenation::new(rogue_sk.sign(&msgp), vec![5, 6, 7, 8, 9]),
+            signer_index: 1,
+            #[cfg(feature = "future_snark")]
+            snark_signature: None,
+        },
+        reg_party: ClosedRegistrationEntry::new(
+            rogue_vk,
+            concat_avk.get_total_stake(),
+            #[cfg(feature = "future_snark")]
+            None,
+            #[cfg(feature = "future_snark")]
+            None,
+        ),
+    });
+    assert!(proof.verify(&msg, concat_avk, &params).is_err(),
+            "aggregate ACCEPTED although 5 of its 10 indices come from a key that was never registered (trailing slot beyond the Merkle batch path)");
+}
+
+/// batch clause: a batch is accepted only if each member would be accepted alone. An aggregate whose two slots carry each
+/// other's BLS signature (no slot holds a valid signature under its own key) is rejected alone and must be rejected in a batch.
+#[test]
+fn replay_batch_verify() {
+    use crate::proof_system::{ConcatenationProof, SingleSignatureForConcatenation};
+    let params = Parameters { m: 5, k: 5, phi_f: 1.0 };
+    let build = |msg: &[u8], seed: u8| -> (ConcatenationProof<D>, AggregateVerificationKey<D>) {
+        let mut rng = ChaCha20Rng::from_seed([seed; 32]);
+        let mut reg = KeyRegistration::initialize();
+        let inits: Vec<Initializer> = (0..3).map(|_| { let i = Initializer::new(params, 1, &mut rng); reg.register_by_entry(&i.clone().try_into().unwrap()).unwrap(); i }).collect();
+        let closed = reg.close_registration(&params).unwrap();
+        let signers: Vec<Signer<D>> = inits.into_iter().map(|i| i.try_create_signer::<D>(&closed).unwrap()).collect();
+        let clerk = Clerk::new_clerk_from_signer(&signers[0]);
+        let avk = clerk.compute_aggregate_verification_key();
+        let mut a = signers[0].create_single_signature(msg).unwrap();
+        let mut b = signers[1].create_single_signature(msg).unwrap();
+        a.set_concatenation_signature_indices(&[0, 1, 2]);
+        b.set_concatenation_signature_indices(&[3, 4]);
+        let aggr = clerk.aggregate_signatures_with_type(&[a, b], msg, AggregateSignatureType::Concatenation, AncillaryProofInput::new(None, AncillaryGenesisData::new())).unwrap().0;
+        aggr.verify(msg, &avk, &params, None, None).expect("honest aggregate rejected");
+        let AggregateSignature::Concatenation(boxed) = aggr else { panic!("not a concatenation proof") };
+        (*boxed, avk)
+    };
+    let (msg_1, msg_2) = ([1u8; 16], [2u8; 16]);
+    let (mut tampered, avk_1) = build(&msg_1, 3);
+    let (honest, avk_2) = build(&msg_2, 4);
+    assert_eq!(tampered.signatures.len(), 2);
+    let (s0, s1) = (tampered.signatures[0].sig.get_concatenation_signature_sigma(), tampered.signatures[1].sig.get_concatenation_signature_sigma());
+    let (i0, i1) = (tampered.signatures[0].sig.get_concatenation_signature_indices(), tampered.signatures[1].sig.get_concatenation_signature_indices());
+    tampered.signatures[0].sig.concatenation_signature = SingleSignatureForConcatenation::new(s1, i0);
+    tampered.signatures[1].sig.concatenation_signature = SingleSignatureForConcatenation::new(s0, i1);
+    let (c1, c2) = (avk_1.to_concatenation_aggregate_verification_key().clone(), avk_2.to_concatenation_aggregate_verification_key().clone());
+    assert!(tampered.verify(&msg_1, &c1, &params).is_err(), "aggregate with exchanged slot signatures accepted alone");
+    assert!(ConcatenationProof::batch_verify(&[honest.clone()], &[msg_2.to_vec()], &[c2.clone()], &[params]).is_ok(), "honest singleton batch rejected");
+    assert!(ConcatenationProof::batch_verify(&[tampered.clone()], &[msg_1.to_vec()], &[c1.clone()], &[params]).is_err(),
+            "singleton batch ACCEPTED an aggregate that is rejected alone (slot signatures exchanged between the two slots)");
+    assert!(ConcatenationProof::batch_verify(&[honest, tampered], &[msg_2.to_vec(), msg_1.to_vec()], &[c2, c1], &[params, params]).is_err(),
+            "batch ACCEPTED although one member is rejected alone");
 }
